@@ -343,7 +343,12 @@ func c19Check(c c19Case) *Violation {
 		table := featsToGts(c.Table)
 		snapshot := featsToGts(c.Table)
 		var out gts.FeatureSlice
-		if pi := guard(func() { out = table.Filter(filter) }); pi != nil {
+		if pi := guard(func() {
+			out = table.Filter(filter)
+			// judged after other tables were filtered (a result must not live in memory the next call re-uses)
+			table.Filter(gts.TrueFilter)
+			gts.FeatureSlice{gts.NewFeature("x", gts.Range(0, 1), gts.Props{{"note", "other"}}), gts.NewFeature("y", gts.Point(2), nil)}.Filter(gts.TrueFilter)
+		}); pi != nil {
 			return panicViolation("FeatureSlice.Filter", pi)
 		}
 		var want gts.FeatureSlice
